@@ -185,6 +185,9 @@ def run_unit(unit, progress):
         if i % 5 == 4:
             prog = diamond_program(random.Random(cs))
             inc("diamond_programs")
+        elif i % 10 == 3:
+            prog = gen.revisit_program(random.Random(cs))
+            inc("revisit_programs")
         else:
             prog = gen.generate(cs, PROFILES[i % 4])
         if prog.get("shared"):
